@@ -148,6 +148,16 @@ class Forall:
         self.nvars = nvars
 
 
+class Exists:
+    """exists lo <= i < hi: body(i), under guard"""
+
+    def __init__(self, lo, hi, body, guard=True):
+        self.lo = lo
+        self.hi = hi
+        self.body = body
+        self.guard = guard
+
+
 class Func:
     """a callable defined in the interpreted code (lambda or nested def) or a bound method"""
 
